@@ -246,7 +246,7 @@ template <class G> struct Monitor {
         R.count("mult_reads_absent_pair", multAbsent);
         R.count("total_edge_number_comparisons", totals);
         R.count("noop_exactness_checks", noopChecks);
-        R.count("long_histories_1200_to_2700_calls", longHistories);
+        R.count("long_histories_2000_to_4500_calls", longHistories);
         longHistories = 0;
         R.count("scale_histories_12_to_70_vertices", scaleHistories);
         { uint64_t &m1 = R.counter("largest_neighbour_list_seen_max"); m1 = std::max(m1, maxDegreeSeen); }
@@ -317,6 +317,14 @@ template <class G> struct Monitor {
         return "";
     }
 
+    // would this call push a multiplicity past UINT_MAX (either orientation of a reciprocal add)?
+    static bool wouldOverflow(const Subject<G> &s, const Op &op) {
+        if (!(op.kind == ADD || op.kind == ADDREC || op.kind == ADDM || op.kind == ADDRECM)) return false;
+        uint64_t k = (op.kind == ADD || op.kind == ADDREC) ? 1 : op.k;
+        bool both = op.kind == ADDREC || op.kind == ADDRECM;
+        uint64_t extra = (both && op.i == op.j) ? k : 0; // a reciprocal add on a self-loop adds twice
+        return (uint64_t)s.m.mult(op.i, op.j) + k + extra > 0xffffffffULL || (both && (uint64_t)s.m.mult(op.j, op.i) + k > 0xffffffffULL);
+    }
     Op gen(Rng &r, Subject<G> &s, PairPicker &pp, unsigned style, unsigned step, unsigned len, unsigned maxN) {
         Op op;
         unsigned n = s.m.n;
@@ -331,6 +339,8 @@ template <class G> struct Monitor {
             if (ph >= 9 && ph < 11) { wAdd = wAddM = wRec = wRecM = wSet = 0; wVertex = 30; wClear = 20; wLoops = 20; wSet0 = 10; }
             else { wRem = 2; wRemM = 3; wVertex = 0; wClear = 0; wLoops = 0; wSet0 = 1; }
         }
+        if (style == 4) { wAdd = 22; wAddM = 20; wRem = 18; wRemM = 18; wSet = 10; wSet0 = 6; wLoops = 3; wVertex = 4; wClear = 0; wResize = 1; }
+        if (style == 3) { wAdd = 30; wAddM = 25; wRem = 14; wRemM = 14; wSet = 8; wSet0 = 4; wLoops = 1; wVertex = 1; wClear = 0; wResize = 1; }
         if (n >= maxN) wResize = 0;
         if (n == 0) { wAdd = wAddM = wRec = wRecM = wRem = wRemM = wSet = wSet0 = wVertex = 0; wResize = 60; }
         unsigned tot = wAdd + wAddM + wRec + wRecM + wRem + wRemM + wSet + wSet0 + wLoops + wVertex + wClear + wResize;
@@ -373,14 +383,9 @@ template <class G> struct Monitor {
             if (n + op.k > maxN) op.k = maxN - n;
         }
         // EdgeMultiplicity is a 32-bit unsigned: an addition that would leave its range is outside any claim
-        if (op.kind == ADD || op.kind == ADDREC || op.kind == ADDM || op.kind == ADDRECM) {
-            uint64_t k = (op.kind == ADD || op.kind == ADDREC) ? 1 : op.k;
-            bool both = op.kind == ADDREC || op.kind == ADDRECM;
-            uint64_t extra = (both && op.i == op.j) ? k : 0; // a reciprocal add on a self-loop adds twice
-            if ((uint64_t)s.m.mult(op.i, op.j) + k + extra > 0xffffffffULL || (both && (uint64_t)s.m.mult(op.j, op.i) + k > 0xffffffffULL)) {
-                op.kind = SETM;
-                op.k = 3;
-            }
+        if (wouldOverflow(s, op)) {
+            op.kind = SETM;
+            op.k = 3;
         }
         return op;
     }
@@ -399,15 +404,16 @@ template <class G> struct Monitor {
             static const unsigned bigN[] = {12, 24, 40, 70};
             n0 = bigN[(sub / cfg.scaleEvery) % 4];
             maxN = n0 + 2;
-            len = 150 + r.u(n0 * 5);
+            len = 250 + r.u(n0 * 7);
             checkEvery = 8;
-            style = 0;
+            style = 3;
             pp.hub = (int)r.u(n0);
             ++scaleHistories;
         } else if (cfg.scaleEvery && sub % (cfg.scaleEvery * 4) == 11) {
-            len = 1200 + r.u(1500);
+            len = 2000 + r.u(2500);
             checkEvery = 16;
             n0 = 3 + r.u(4);
+            style = 4; // steady churn without clearEdges: hundreds of edges come and go on one object
             ++longHistories;
         }
         Subject<G> s(n0);
@@ -424,9 +430,7 @@ template <class G> struct Monitor {
         uint64_t hh = n0;
         for (unsigned step = 0; step < len; ++step) {
             Op op = gen(r, s, pp, style, step, len, maxN);
-            if (havePrev && r.chance(1, 12) && !((prevOp.kind == ADD || prevOp.kind == ADDREC || prevOp.kind == ADDM || prevOp.kind == ADDRECM) &&
-                                                 (uint64_t)s.m.mult(prevOp.i, prevOp.j) + 2 * (uint64_t)prevOp.k + 2 > 0xffffffffULL))
-                op = prevOp; // the same call twice in a row (unless it would leave the 32-bit multiplicity range)
+            if (havePrev && r.chance(1, 12) && !wouldOverflow(s, prevOp)) op = prevOp; // the same call twice in a row (unless it would leave the 32-bit multiplicity range)
             prevOp = op;
             havePrev = true;
             bool noop = s.isNoop(op) && (op.kind == REMOVE || op.kind == REMOVEM || op.kind == SETM0) && !s.m.has(op.i, op.j); // removing an absent edge changes nothing
@@ -499,7 +503,8 @@ template <class G> struct Monitor {
             std::string err = s.apply(d);
             ++calls; ++callsByKind[DEDUP];
             if (!err.empty()) { R.violation(cls + "/removeDuplicateEdges/exception", err); return; }
-            std::string e2 = checkAll(s); // no duplicates now: totals, multiplicities, degrees, matrix all checked
+            std::string e2 = checkAll(s); // no duplicates now: structure, degrees, matrix
+            if (e2.empty()) e2 = checkMult(s); // "total edge count [is that] of the deduplicated graph", multiplicity of every pair
             if (!e2.empty()) { R.violation(cls + "/removeDuplicateEdges/" + observerOf(e2), "after removeDuplicateEdges: " + e2 + "; model " + s.m.str()); return; }
             // equals the graph built by inserting each distinct pair once, unforced
             G u(n);
